@@ -2,7 +2,7 @@
 # usage: try_seed.sh <patch.diff> <property>...   – applies the patch to a scratch copy of /repo (never /repo itself) and runs the quick checks on it
 patch="$1"; shift
 t=$(mktemp -d /tmp/tryseed.XXXXXX)
-cp -r /repo "$t/repo" && rm -rf "$t/repo/.git"
+rsync -a --exclude .git /repo/ "$t/repo/"
 ( cd "$t/repo" && patch -p1 -s --no-backup-if-mismatch < "$patch" ) || { echo "PATCH FAILED"; rm -rf "$t"; exit 2; }
 for p in "$@"; do
   /verif/bin/coapcheck -property "$p" -tier quick -repo "$t/repo" -out "$t/out" 2>&1 | grep -v '^VIOLATION' | tail -${TAIL:-6}
